@@ -398,7 +398,12 @@ def r6(ctx, cfg):
         if ok:
             bid, t = pc[0]
             a = P.call_args(f, t, bid)
-            chk = contains(a[5], lambda x: x[0] == "field" and x[2] == "checksum" and contains(x[1], lambda y: y[0] == "call" and y[1] == W + "code_data" and is_param(y[2][1], "code_id")))
+            # (the code's record: looked up by the accessor `code_data(code_id)` or in the map itself, `self.code_data.get(&code_id)`)
+            def the_code(y):
+                return (y[0] == "call" and y[1] == W + "code_data" and is_param(y[2][1], "code_id")) or \
+                    (y[0] == "call" and y[1] == "std::collections::BTreeMap::get" and peel(y[2][0])[0] == "field" and peel(y[2][0])[2] == "code_data" and
+                     is_param(peel(y[2][0])[1], "self") and is_param(y[2][1], "code_id"))
+            chk = contains(a[5], lambda x: x[0] == "field" and x[2] == "checksum" and contains(x[1], the_code))
             cr = contains(a[6], lambda x: x[0] == "call" and x[1].endswith("Api::addr_canonicalize") and contains(x[2][1], lambda y: y[0] == "param" and y[2] == "creator"))
             sl = contains(a[7], lambda x: x[0] == "param" and x[2] == "salt") and not contains(a[7], lambda x: x[0] == "param" and x[2] != "salt")
             ctx.ob(R, key, "salted(checksum of code, canonical creator, salt)", chk and cr and sl,
@@ -422,7 +427,13 @@ def r6(ctx, cfg):
             def is_count(x):
                 if not (x[0] == "call" and x[1].endswith("Iterator::count")):
                     return False
-                return contains(x[2][0], lambda y: y[0] == "call" and y[1] == "cw_storage_plus::Map::range_raw" and peel(y[2][0]) == ("item", "wasm::CONTRACTS") and
+                # (every record counts once whether its keys, its raw pairs or its decoded pairs are walked; the walk is unbounded)
+                def none(z):
+                    z = peel(z)
+                    return z[0] == "agg" and z[1].endswith("Option::None")
+                return contains(x[2][0], lambda y: y[0] == "call" and y[1] in ("cw_storage_plus::Map::range_raw", "cw_storage_plus::Map::keys_raw", "cw_storage_plus::Map::range",
+                                                                                "cw_storage_plus::Map::keys") and peel(y[2][0]) == ("item", "wasm::CONTRACTS") and
+                                len(y[2]) >= 4 and none(y[2][2]) and none(y[2][3]) and
                                 contains(y[2][1], lambda z: z[0] == "call" and z[1] == "prefixed_storage::prefixed_read" and is_param(z[2][0], "storage") and
                                          peel(z[2][1]) == ("item", "wasm::NAMESPACE_WASM")))
             ok = is_param(a[3], "code_id") and contains(inst, is_count)
@@ -464,6 +475,9 @@ def r7(ctx, cfg):
             al = [peel(x) for x in alts(o)]
             if len(al) == 2 and any(x == ("const", "int", 0) for x in al):
                 o = [x for x in al if x != ("const", "int", 0)][0]
+                if o[0] == "field" and o[2] == "0" and peel(o[1])[0] == "some" and peel(peel(o[1])[1])[0] == "call" and \
+                        peel(peel(o[1])[1])[1].rsplit("::", 1)[1] in ("last_key_value", "first_key_value"):
+                    o = peel(o[1])          # (the key of the pair `last_key_value()` yields)
                 if o[0] == "some":
                     o = peel(o[1])
                 chain.append("unwrap_or")
